@@ -13,6 +13,8 @@ use triomphe::{Arc, ArcBorrow, ArcUnion, HeaderSlice, HeaderWithLength, OffsetAr
 pub trait Letter: Copy + PartialEq + PartialOrd + Debug + 'static {
     fn of(n: u64) -> Self;
     const TOTAL: bool;
+    /// the carrier has an order at all (the equality-only carrier answers None to every comparison)
+    const ORDERED: bool = true;
     fn h(&self) -> Option<u64>;
 }
 impl Letter for u8 {
@@ -52,6 +54,7 @@ impl Letter for Refl {
         Refl(n as u8)
     }
     const TOTAL: bool = false;
+    const ORDERED: bool = false;
     fn h(&self) -> Option<u64> {
         None
     }
@@ -113,7 +116,7 @@ fn row<L: Letter>(r: &Value, rep: &mut Report) {
     if vne == veq {
         rep.bad("HeaderSlice !=: not the negation of ==", pair.clone());
     }
-    if (vcmp == 1) != veq {
+    if L::ORDERED && (vcmp == 1) != veq {
         rep.bad(&format!("HeaderSlice: == and partial_cmp disagree on equality{}", recdiff), format!("{}: == is {}, partial_cmp code {}", pair, veq, vcmp));
     }
     if vrel != implied(vcmp) {
